@@ -56,3 +56,31 @@ Theorem C04_unfused_total : forall A B fa fb fo op,
     forall v, eval U v = bop_of op (eval A (oflip fa (oflip fo v))) (eval B (oflip fb (oflip fo v))).
 Proof. exact unfused_total. Qed.
 Print Assumptions C04_unfused_total.
+
+(* ---- the ternary ENGINE (`ternary_apply`), modelled order-faithfully in Model/Apply3.v: its three input flips and its
+   output flip act as bit inversions, and its only panics are the argument checks ---- *)
+From BddVerif Require Import Model.Apply3 Proofs.Apply3Sem.
+
+Theorem C04_ternary_engine_flip_semantics : forall A B C fa fb fc fo op,
+  wf A -> wf B -> wf C -> nvars A = nvars B -> nvars B = nvars C ->
+  (flip_ok (nvars A) fa && flip_ok (nvars A) fb && flip_ok (nvars A) fc && flip_ok (nvars A) fo = true) ->
+  total3 op -> consistent3 op ->
+  exists r, fused_ternary_flip_op_faithful A B C fa fb fc fo op = Ok r /\ Canonical r /\ nvars r = nvars A /\
+    forall v, eval r v = conn3 op (eval A (oflip fa (oflip fo v))) (eval B (oflip fb (oflip fo v)))
+                                  (eval C (oflip fc (oflip fo v))).
+Proof. exact fused_ternary_flip_op_faithful_correct. Qed.
+Print Assumptions C04_ternary_engine_flip_semantics.
+
+Theorem C04_ternary_engine_flip_bounds : forall A B C fa fb fc fo op,
+  wf A -> wf B -> wf C -> total3 op -> consistent3 op ->
+  (fused_ternary_flip_op_faithful A B C fa fb fc fo op = Panic <->
+   (~ (nvars A = nvars B /\ nvars B = nvars C) \/
+    flip_ok (nvars A) fa && flip_ok (nvars A) fb && flip_ok (nvars A) fc && flip_ok (nvars A) fo = false)).
+Proof. exact ternary_faithful_panic_iff. Qed.
+Print Assumptions C04_ternary_engine_flip_bounds.
+
+Theorem C04_ternary_engine_eq_compositional : forall A B C fa fb fc fo op,
+  wf A -> wf B -> wf C -> total3 op -> consistent3 op ->
+  fused_ternary_flip_op_faithful A B C fa fb fc fo op = fused_ternary_flip_op A B C fa fb fc fo op.
+Proof. exact ternary_faithful_eq. Qed.
+Print Assumptions C04_ternary_engine_eq_compositional.
